@@ -17,7 +17,8 @@ RULE = ('Hypothesis draws import digraphs over 1-6 user modules + the three base
         'implicitly imports (so every graph has cycles through the base modules; explicit cycles, self loops, '
         'diamonds, imports of absent modules, two-module files and file aliases are drawn too) and 1-4 sources '
         'each holding any subset of the modules as good or defective text. Non-trivial: the user graph has a '
-        'cycle / self loop / diamond, or >= 2 sources hold different copies of one module. Distinct = scenario hash.')
+        'cycle / self loop / diamond, or >= 2 sources hold different copies of one module. Distinct = scenario hash. '
+        'The 75 000 small-scope scenarios of this domain are enumerated completely in the thorough tier (every 7th in quick).')
 ASSUMPTIONS = [
     '"first source that holds a module" = first source with a usable text; earlier sources may report not-found or fail',
     'termination is judged by a call budget of 400 logged component calls per module',
